@@ -6,6 +6,9 @@ Small API
 keys / signatures (independent of paramiko):
     KEY_ALGOS                    key name -> signature algorithm names usable with it
     pub_blob(name)               SSH public key blob of pool key `name`
+    CERT_KEY_ALGOS               "<pool name>-cert" -> algorithm names; pub_blob / sign / ref_priv accept these names too:
+                                 pub_blob gives a harness-built OpenSSH certificate (cert_blob), plain_blob(name) the key inside
+    is_cert(name), base_key(name), key_algos(name)
     session_blob(sid, user, service, algo, keyblob, ...)   RFC 4252 section 7 signed data
     sign(name, sigalgo, data)    SSH signature blob (string algo, string sig)
     ref_verify(keyblob, data, sigblob) -> bool   strict independent verification
@@ -73,15 +76,63 @@ _priv = {}
 _blob = {}
 
 
+CERT_SUFFIX = "-cert-v01@openssh.com"
+# certificate flavours of pool keys: "<pool name>-cert" -> algorithm names a request may declare with it
+# (the key TYPE inside the blob is always the first of the plain key's family + suffix, e.g.
+# ssh-rsa-cert-v01@openssh.com, whichever rsa-sha2-* algorithm is declared)
+CERT_KEY_ALGOS = {
+    "ed25519-cert": ["ssh-ed25519" + CERT_SUFFIX],
+    "ecdsa256-cert": ["ecdsa-sha2-nistp256" + CERT_SUFFIX],
+    "rsa2048-cert": ["rsa-sha2-512" + CERT_SUFFIX, "rsa-sha2-256" + CERT_SUFFIX, "ssh-rsa" + CERT_SUFFIX],
+    "rsa1024-cert": ["rsa-sha2-512" + CERT_SUFFIX, "rsa-sha2-256" + CERT_SUFFIX, "ssh-rsa" + CERT_SUFFIX],
+}
+
+
+def is_cert(name):
+    return name.endswith("-cert")
+
+
+def base_key(name):
+    """Pool key behind a (possibly certificate) key name."""
+    return name[: -len("-cert")] if is_cert(name) else name
+
+
+def key_algos(name):
+    return CERT_KEY_ALGOS[name] if is_cert(name) else KEY_ALGOS[name]
+
+
 def ref_priv(name):
+    name = base_key(name)
     if name not in _priv:
         _priv[name] = K.spec(name).ref_private()
     return _priv[name]
 
 
+def plain_blob(name):
+    """Plain public key blob of the pool key behind `name`."""
+    return pub_blob(base_key(name))
+
+
+def cert_blob(name, ca="ed25519b"):
+    """A well-formed OpenSSH user certificate (PROTOCOL.certkeys) for pool key `name`, signed by pool key `ca`,
+    built with the refssh encoders only: string type, string nonce, <public key fields>, uint64 serial,
+    uint32 type(1=user), string key id, string principals, uint64 valid after, uint64 valid before,
+    string critical options, string extensions, string reserved, string signature key, string signature."""
+    plain = pub_blob(base_key(name))
+    r = R.Reader(plain)
+    ktype = r.string()
+    fields = plain[4 + len(ktype) :]
+    body = R.string(ktype + CERT_SUFFIX.encode()) + R.string(b"\x5a" * 32) + fields
+    body += R.u64(7) + R.u32(1) + R.string(b"verif-cert") + R.string(R.string(b"alice"))
+    body += R.u64(0) + R.u64(0xFFFFFFFFFFFFFFFF) + R.string(b"") + R.string(b"") + R.string(b"")
+    body += R.string(pub_blob(ca))
+    return body + R.string(sign(ca, KEY_ALGOS[ca][0], body))
+
+
 def pub_blob(name):
+    """SSH public key blob of pool key `name`; for "<pool name>-cert" the certificate blob."""
     if name not in _blob:
-        _blob[name] = K.RefPub.from_crypto(ref_priv(name).public_key()).blob()
+        _blob[name] = cert_blob(name) if is_cert(name) else K.RefPub.from_crypto(ref_priv(name).public_key()).blob()
     return _blob[name]
 
 
